@@ -490,6 +490,7 @@ def c_case(seed, res, want_sample=False):
     sim, mon = run_hs(o2, fp, seed * 2, store, ticket=ticket, early=(mode == "resumed+0rtt" and ticket is not None))
     res.evaluations += 1
     outcome = evaluate(sim, mon, o2, res, case, offered_ticket=ticket is not None, where="c")
+    stray_packets_after_completion(sim, mon, o2, res, case)
     fc = sim.fates.counts
     res.count("c_frontend_vn", sim.frontend["vn"])
     res.count("c_frontend_retry", sim.frontend["retry"])
@@ -513,6 +514,49 @@ def c_case(seed, res, want_sample=False):
              "version": VNAME.get(sim.client.conn._version), "resumed": bool(cev and cev.session_resumed),
              "dropped": fc["drop"], "frontend": sim.frontend}, limit=2,
         )
+
+
+def stray_packets_after_completion(sim, mon, o, res, case):
+    """Both endpoints completed and agree (evaluate() has just said so).  Packets that QUIC does not authenticate — a
+    Version Negotiation packet listing the client's other versions, a Retry with a valid (public-key) integrity tag —
+    built by anyone who saw the connection IDs on the wire, now reach the client: what the client reports about the
+    completed handshake (version, TLS state, cipher suite, traffic keys in place) must stay what both sides agreed on."""
+    from aioquic.quic.packet import encode_quic_retry, encode_quic_version_negotiation
+
+    if not (mon.completed.get("client") and mon.completed.get("server")):
+        return
+    ce = sim.client
+    c = ce.conn
+    if getattr(ce, "term_event", None) is not None or c._state.name != "CONNECTED":
+        return
+
+    def view():
+        ks = getattr(c.tls, "key_schedule", None)
+        from aioquic import tls as _tls
+
+        one = c._cryptos[_tls.Epoch.ONE_RTT]
+        return {"version": c._version, "tls_state": c.tls.state.name, "cipher_suite": getattr(getattr(ks, "cipher_suite", None), "name", None),
+                "1rtt_keys": (one.send.is_valid(), one.recv.is_valid()), "state": c._state.name}
+
+    others = [V[x] for x in o["versions_c"] if V[x] != c._version] or [0x1A2A3A4A]
+    forged = [
+        ("version-negotiation", encode_quic_version_negotiation(source_cid=c._peer_cid.cid, destination_cid=c.host_cid, supported_versions=others)),
+        ("retry", encode_quic_retry(version=c._version, source_cid=b"R" * 8, destination_cid=c.host_cid, original_destination_cid=c._peer_cid.cid, retry_token=b"tok")),
+    ]
+    for name, pkt in forged:
+        before = view()
+        try:
+            c.receive_datagram(pkt, ("2.3.4.5", 4433), now=sim.now)
+        except Exception as exc:
+            res.count("obs_stray_packet_raised_" + type(exc).__name__)
+        after = view()
+        res.count("c_stray_%s_after_completion" % name)
+        if after != before:
+            changed = sorted(k for k in before if before[k] != after[k])
+            res.violation("c:stray-%s-after-completion-changes:%s" % (name, "+".join(changed)),
+                          "both endpoints had completed and agreed; a %s packet nobody authenticated then changed what the client holds: %s -> %s" % (
+                              name, {k: before[k] for k in changed}, {k: after[k] for k in changed}), case, {"options": o, "before": before, "after": after})
+            return
 
 
 def c_matrix(batch, res):
